@@ -8,7 +8,7 @@
   connection failure, starting from connections whose id counters are `cfg.base c ≤ 65536`
   (`base = 0`: freshly dialled).  Histories are lists of events, newest first.
 -/
-import MosVerif.Lemmas.PipelineEol
+import MosVerif.Lemmas.PipelineRun
 import MosVerif.Generated.Facts
 namespace MosVerif.C05
 open MosVerif.Pipeline
@@ -191,6 +191,34 @@ theorem available_gets_id (c : Conn) (ch : Nat) (h : c.status.2 = true) : (c.add
   have hle : ¬ c.nextQid > 65535 := by omega
   unfold Conn.addQueueC
   by_cases hr : c.reserved > 0 <;> simp [hr, hm, hle]
+
+/-! ### the executable script-level model is one of the schedules
+
+  `mvmodel` replays a harness script with `runOps` (Model/Pipeline.lean), following the pool's
+  choices visible in the implementation's log `gs`. Whatever that log says, every state it goes
+  through is reached by steps of the model from the state left by the prefix, hence satisfies the
+  invariants and the specification. -/
+
+/-- the states of a script run are reached by steps -/
+theorem script_runs_steps (cfg : Cfg) (known : List Nat) (r : RunSt) (ops : List Op) (gs : List (List Tok)) :
+    ∀ s ∈ runStates cfg known r ops gs, ∃ steps, s = exec cfg r.s steps :=
+  runStates_reach cfg known r ops gs
+
+/-- ★ … and their histories satisfy the specification; ids are handed out in increasing order; no reply
+    event is received twice. (`pre`: length of the prefix, `cids`: caller IDs of the script's exchanges.) -/
+theorem script_model_sound (cids : List (Nat × Nat)) (pre : Nat) (known : List Nat) (ops : List Op)
+    (gs : List (List Tok)) :
+    let pconns := preRun pre []
+    let cfg := scriptCfg cids pconns
+    ∀ s ∈ runStates cfg known ⟨scriptInit pconns, pconns.length, [], [], []⟩ ops gs,
+      spec cfg s.hist = true ∧ (∀ c, (assignedIds c s.hist).Pairwise (· > ·)) ∧
+      (∀ e e' k, (e, k) ∈ s.taken → (e', k) ∈ s.taken → e = e') := by
+  intro pconns cfg s hs
+  obtain ⟨steps, rfl⟩ := runStates_reach cfg known _ ops gs s hs
+  obtain ⟨hi, hg⟩ := scriptInit_inv cids pre
+  exact ⟨(inv_exec hi steps).sp,
+         mono_exec hi (by intro c; simp [scriptInit, assignedIds]) steps,
+         (ginv_exec hi hg steps).tk_inj⟩
 
 /-! ### non-vacuity -/
 
